@@ -174,6 +174,23 @@ theorem acked_chain_objects (j : Nat) (hj : j ≠ 0) (s : Sys) (h : ReachB j s) 
   obtain ⟨e, h1, _, h3⟩ := h.inv hj
   exact h3.paths x hx hxj (headOf s.store j) (Nat.le_refl _) h1.he
 
+/-- **not_ack_exactly_once_if_pool_removed** — the hypothesis `NoReset` (the pool is not deleted
+    during the run) cannot be dropped, and this is a defect of the code, not of the model
+    (harness key C12:lin:commit-into-removed-pool): `Root.RemovePool` deletes the pool directory
+    under a commit that is in flight; the commit's put-if-absent then succeeds in the emptied
+    directory and the commit is acknowledged although nothing of the branch can be read any more
+    (on the real code: two conflicting commits are both acknowledged).  Witness: the run
+    `removedPoolLabels` is free of branch removals, contains one `delPool 1`, ends with an
+    acknowledged commit on pool 1 — and the pool's journal does not replay. -/
+theorem not_ack_exactly_once_if_pool_removed :
+    let s := poolCreated.run removedPoolLabels
+    (∃ x ∈ s.acks, x.pool = 1 ∧ x.id = 2) ∧ (s.cl 1).res = some (.committed 2) ∧
+      visibleTable s.store 1 = none ∧ NoDrop 1 removedPoolLabels ∧ ¬ NoReset 1 removedPoolLabels := by
+  refine ⟨by decide, by decide, by decide, noDrop_of_all (by decide), ?_⟩
+  intro h
+  have := h (.start 2 (.delPool 1)) (by decide)
+  simp [Label.resets, Start.resets] at this
+
 /-! Non-vacuity: the hypotheses are satisfiable and the system does move. -/
 
 /-- A concrete run on the pools journal: client 0 inserts key 1, client 1 inserts key 2,
